@@ -239,7 +239,7 @@ package database
 //@   ensures[C01.collect-ok] fresh(result) && len(result) == len(scores) && resultsOK(db, result)
 //@   ensures[C04.collect-gates] gatesOK(result, options)
 //@   ensures[C04.collect-from-scores] forall k int :: 0 <= k && k < len(result) ==> (cmdIdx(db, result[k].Command) in scores)
-//@   ensures[C02.collect-index-order] ascendingCmds(db, result)
+//@   proves[C02.collect-index-order] ascendingCmds(db, result)
 //@   ensures[C03.collect-all] forall d int :: (d in scores) ==> (exists k int :: 0 <= k && k < len(result) && result[k].Command == &db.Commands[d])
 //@   ensures[C03.collect-score] pq == nil && options.PipelineBoost <= 0.0 ==> (forall k int :: 0 <= k && k < len(result) ==> result[k].Score == scores[cmdIdx(db, result[k].Command)])
 //@ loop 1
@@ -376,7 +376,7 @@ package database
 //@   ensures[C01.enhance] pq != nil && fresh(pq) && len(enhancedTerms) >= len(terms) && (fresh(terms) ==> fresh(enhancedTerms))
 //@   ensures[C06.enhance-prefix] forall i int :: 0 <= i && i < len(terms) ==> enhancedTerms[i] == old(terms[i])
 //@   ensures[C06.enhance-cap] len(enhancedTerms) <= max(len(terms), 8)
-//@   ensures[C06.enhance-no-new-dups] forall i, j int :: 0 <= i && i < j && len(terms) <= j && j < len(enhancedTerms) ==> enhancedTerms[i] != enhancedTerms[j]
+//@   proves[C06.enhance-no-new-dups] forall i, j int :: 0 <= i && i < j && len(terms) <= j && j < len(enhancedTerms) ==> enhancedTerms[i] != enhancedTerms[j]
 //@ loop 1
 //@   invariant len(terms) >= len(old(terms)) && ((base(terms) == base(old(terms)) && offset(terms) == offset(old(terms)) && cap(terms) == cap(old(terms))) || fresh(terms))
 //@   invariant forall i int :: 0 <= i && i < len(old(terms)) ==> terms[i] == old(terms[i])
@@ -449,20 +449,20 @@ package database
 //@   ensures[C04.gates] gatesOK(result, options)
 //@   ensures[C01.keeps-db] db.Commands == old(db.Commands) && dbInv(db)
 //@   ensures[C03.index-current] db.uIndex != nil && db.uIndex.N == len(db.Commands)
-//@   ensures[C03.candidates-sound] !options.UseNLP && !options.UseFuzzy && db.embeddingIndex == nil ==> (forall k int :: 0 <= k && k < len(result) ==> hitSome(db, db.uIndex, tokensOf(query), cmdIdx(db, result[k].Command)))
-//@   ensures[C03.candidates-complete] !options.UseNLP && db.embeddingIndex == nil && len(result) < effLimit(options.Limit) && seqlen(tokensOf(query)) <= (options.TopTermsCap <= 0 ? 10 : options.TopTermsCap) ==> (forall d int :: hitSome(db, db.uIndex, tokensOf(query), d) ==> (exists k int :: 0 <= k && k < len(result) && result[k].Command == &db.Commands[d]))
+//@   ensures[C03.s/candidates-sound] !options.UseNLP && !options.UseFuzzy && db.embeddingIndex == nil ==> (forall k int :: 0 <= k && k < len(result) ==> hitSome(db, db.uIndex, tokensOf(query), cmdIdx(db, result[k].Command)))
+//@   ensures[C03.c/candidates-complete] !options.UseNLP && db.embeddingIndex == nil && len(result) < effLimit(options.Limit) && seqlen(tokensOf(query)) <= (options.TopTermsCap <= 0 ? 10 : options.TopTermsCap) ==> (forall d int :: hitSome(db, db.uIndex, tokensOf(query), d) ==> (exists k int :: 0 <= k && k < len(result) && result[k].Command == &db.Commands[d]))
 //@   hint[C06.tokens-kept] calculateInitialScores seqlen(tokensOf(query)) <= termsCap && termsCap >= 8 ==> (forall i int :: 0 <= i && i < seqlen(tokensOf(query)) ==> (exists m int :: 0 <= m && m < len(terms) && terms[m] == seqat(tokensOf(query), i)))
 //@   hint[C06.first-four-kept] calculateInitialScores forall i int :: 0 <= i && i < 4 && i < seqlen(tokensOf(query)) ==> (exists m int :: 0 <= m && m < len(terms) && terms[m] == seqat(tokensOf(query), i))
 //@   hint[C06.scores-superset] collectResults seqlen(tokensOf(query)) <= termsCap && termsCap >= 8 ==> (forall d int :: hitSome(db, db.uIndex, tokensOf(query), d) ==> (d in scores))
 //@   hint[C06.first-four-hits-kept] collectResults forall d, i int :: 0 <= i && i < 4 && i < seqlen(tokensOf(query)) && termHits(db, db.uIndex, seqat(tokensOf(query), i), d) ==> (d in scores)
-//@   hint[C03.scores-sound] collectResults !options.UseNLP ==> (forall d int :: (d in scores) ==> hitSome(db, db.uIndex, tokensOf(query), d))
-//@   hint[C03.scores-complete] collectResults !options.UseNLP && seqlen(tokensOf(query)) <= termsCap ==> (forall d int :: hitSome(db, db.uIndex, tokensOf(query), d) ==> (d in scores))
-//@   hint[C03.terms-are-tokens] calculateInitialScores !options.UseNLP ==> (forall m int :: 0 <= m && m < len(terms) ==> (exists i int :: 0 <= i && i < seqlen(tokensOf(query)) && seqat(tokensOf(query), i) == terms[m]))
-//@   hint[C03.sorted-from-scores] applyPostScoringBoosts forall k int :: 0 <= k && k < len(results) ==> (cmdIdx(db, results[k].Command) in scores)
-//@   hint[C03.sorted-all-scores] applyPostScoringBoosts forall d int :: (d in scores) ==> (exists k int :: 0 <= k && k < len(results) && results[k].Command == &db.Commands[d])
-//@   hint[C03.final-from-scores] return !options.UseNLP && db.embeddingIndex == nil ==> (forall k int :: 0 <= k && k < len(results) ==> (cmdIdx(db, results[k].Command) in scores))
-//@   hint[C03.final-all-scores] return !options.UseNLP && db.embeddingIndex == nil && len(results) < options.Limit ==> (forall d int :: (d in scores) ==> (exists k int :: 0 <= k && k < len(results) && results[k].Command == &db.Commands[d]))
-//@   hint[C03.final-complete] return !options.UseNLP && db.embeddingIndex == nil && len(results) < options.Limit && seqlen(tokensOf(query)) <= termsCap ==> (forall d int :: hitSome(db, db.uIndex, tokensOf(query), d) ==> (exists k int :: 0 <= k && k < len(results) && results[k].Command == &db.Commands[d]))
+//@   hint[C03.s/scores-sound] collectResults !options.UseNLP ==> (forall d int :: (d in scores) ==> hitSome(db, db.uIndex, tokensOf(query), d))
+//@   hint[C03.c/scores-complete] collectResults !options.UseNLP && seqlen(tokensOf(query)) <= termsCap ==> (forall d int :: hitSome(db, db.uIndex, tokensOf(query), d) ==> (d in scores))
+//@   hint[C03.s/terms-are-tokens] calculateInitialScores !options.UseNLP ==> (forall m int :: 0 <= m && m < len(terms) ==> (exists i int :: 0 <= i && i < seqlen(tokensOf(query)) && seqat(tokensOf(query), i) == terms[m]))
+//@   hint[C03.s/sorted-from-scores] applyPostScoringBoosts forall k int :: 0 <= k && k < len(results) ==> (cmdIdx(db, results[k].Command) in scores)
+//@   hint[C03.c/sorted-all-scores] applyPostScoringBoosts forall d int :: (d in scores) ==> (exists k int :: 0 <= k && k < len(results) && results[k].Command == &db.Commands[d])
+//@   hint[C03.s/final-from-scores] return !options.UseNLP && db.embeddingIndex == nil ==> (forall k int :: 0 <= k && k < len(results) ==> (cmdIdx(db, results[k].Command) in scores))
+//@   hint[C03.c/final-all-scores] return !options.UseNLP && db.embeddingIndex == nil && len(results) < options.Limit ==> (forall d int :: (d in scores) ==> (exists k int :: 0 <= k && k < len(results) && results[k].Command == &db.Commands[d]))
+//@   hint[C03.c/final-complete] return !options.UseNLP && db.embeddingIndex == nil && len(results) < options.Limit && seqlen(tokensOf(query)) <= termsCap ==> (forall d int :: hitSome(db, db.uIndex, tokensOf(query), d) ==> (exists k int :: 0 <= k && k < len(results) && results[k].Command == &db.Commands[d]))
 
 // ---------------------------------------------------------------------------
 // Legacy searches and helpers (C01, C10): helpers are always handed a command of the list.
